@@ -110,7 +110,7 @@ def run(ctx):
     cases = []
     for i in range(nb):
         lang = 'ja' if i % 3 == 2 else 'en'
-        batch = R.make_batch(rng, lang, awkward=rng.choice([0.0, 0.15]), licensed_only=(i % 4 != 3))
+        batch = R.make_batch(rng, lang, awkward=rng.choice([0.0, 0.15]), licensed_only=(i % 4 != 3), unispace=rng.choice([0.0, 0.0, 0.2]))
         for sent in batch:
             for st in sent:
                 for tok in st.tree.tokens:
